@@ -163,12 +163,34 @@ Canon(fld, v) ==
   IF fld.k = "num" /\ ~fld.sg THEN ((v \div fld.scale) % (2^fld.w)) * fld.scale
   ELSE IF fld.k = "enum" THEN EnumIndex(fld, fld.names[v][2]) ELSE v
 
+\* no field of the form is placed twice (alias forms such as AVR LSL Rd = ADD Rd,Rd may do that)
+DupFree(form) ==
+  \A f \in 1..Len(form.flds) :
+    \A u1, u2 \in 1..Len(form.enc) : \A i \in 1..Len(form.enc[u1].parts) : \A j \in 1..Len(form.enc[u2].parts) :
+      LET p == form.enc[u1].parts[i] q == form.enc[u2].parts[j] IN
+        (p.f = f /\ q.f = f /\ <<u1, i>> # <<u2, j>>) =>
+           {p.shr + b : b \in 0..(p.w - 1)} \cap {q.shr + b : b \in 0..(q.w - 1)} = {}
+
 \* the units (prefix of a memory window) are an encoding of this form
 Matches(form, units, pc, addrMax) ==
   /\ Len(units) >= Len(form.enc)
-  /\ LET ops == Extract(form, units, pc) IN
-       /\ AllLegal(form, ops, pc, addrMax)
-       /\ EncodeRaw(form, ops, pc) = SubSeq(units, 1, Len(form.enc))
+  /\ IF DupFree(form)
+     THEN LET ops == Extract(form, units, pc) IN
+            /\ AllLegal(form, ops, pc, addrMax)
+            /\ EncodeRaw(form, ops, pc) = SubSeq(units, 1, Len(form.enc))
+     \* a field placed twice (one register operand used as source and destination): search its values
+     ELSE /\ Len(form.flds) = 1 /\ form.flds[1].k = "enum"
+          /\ \E v \in 1..Len(form.flds[1].names) : EncodeRaw(form, <<v>>, pc) = SubSeq(units, 1, Len(form.enc))
+
+\* as Matches, but operands in the convention zone of a field (accepted by an assembler although outside the
+\* must-accept range, e.g. a data address beyond the device's RAM) are admitted: used to explain recorded statements
+MatchesLoose(form, units, pc, addrMax) ==
+  /\ Len(units) >= Len(form.enc)
+  /\ IF DupFree(form)
+     THEN LET ops == Extract(form, units, pc) IN
+            /\ \A i \in 1..Len(form.flds) : Legal(form.flds[i], ops[i], pc, addrMax) \/ Grey(form.flds[i], ops[i], pc, addrMax)
+            /\ EncodeRaw(form, ops, pc) = SubSeq(units, 1, Len(form.enc))
+     ELSE Matches(form, units, pc, addrMax)
 
 \* ------------------------------------------------------------------------------- rendering
 RenderOp(fld, v) == IF fld.k = "enum" THEN fld.names[v][1] ELSE ToString(v)
@@ -206,14 +228,6 @@ FormWellFormed(form, unitBits) ==
   /\ form.tf \in 0..Len(form.flds)
   /\ form.flow \in {"next", "cond", "jump", "call", "ret", "stop"}
 
-\* no field of the form is placed twice (alias forms such as AVR LSL Rd = ADD Rd,Rd may do that)
-DupFree(form) ==
-  \A f \in 1..Len(form.flds) :
-    \A u1, u2 \in 1..Len(form.enc) : \A i \in 1..Len(form.enc[u1].parts) : \A j \in 1..Len(form.enc[u2].parts) :
-      LET p == form.enc[u1].parts[i] q == form.enc[u2].parts[j] IN
-        (p.f = f /\ q.f = f /\ <<u1, i>> # <<u2, j>>) =>
-           {p.shr + b : b \in 0..(p.w - 1)} \cap {q.shr + b : b \in 0..(q.w - 1)} = {}
-
 \* ------------------------------------------------------------------------------- opcode map (first unit)
 FieldInUnit1(form, f) ==
   /\ \E i \in 1..Len(form.enc[1].parts) : form.enc[1].parts[i].f = f
@@ -242,4 +256,27 @@ MaskDistinct(f, g, unitBits) ==
   \E b \in FixedBits(f, unitBits) \cap FixedBits(g, unitBits) : Bits(f.enc[1].c, b, 1) # Bits(g.enc[1].c, b, 1)
 PairwiseDistinct(forms, unitBits) ==
   \A f, g \in {h \in forms : ~h.alias} : f # g => MaskDistinct(f, g, unitBits)
+\* ------------------------------------------------------------------------------- exact distinctness of forms
+\* (for prefix-coded ISAs such as the Z80 and for ISAs whose register fields have holes, e.g. MSP430 modes)
+\* possible values of unit u of a form: -1 if the unit carries (part of) an operand of 8 or more bits, otherwise the
+\* set of values obtained by enumerating its register / bit-number fields
+SmallVals(fld) == IF fld.k = "enum" THEN {fld.names[i][2] : i \in 1..Len(fld.names)}
+                  ELSE {v \div fld.scale : v \in {x \in fld.lo..fld.hi : x % fld.scale = 0}}
+RECURSIVE UnitVals(_, _, _)
+UnitVals(form, u, i) ==      \* values contributed by pieces i.. of unit u
+  IF i > Len(form.enc[u].parts) THEN {0}
+  ELSE LET p == form.enc[u].parts[i] IN
+       {Bits(v, p.shr, p.w) * (2^p.shl) + r : v \in SmallVals(form.flds[p.f]), r \in UnitVals(form, u, i + 1)}
+WideUnit(form, u) == \E i \in 1..Len(form.enc[u].parts) : form.flds[form.enc[u].parts[i].f].w >= 8
+KeyAt(form, u) == IF WideUnit(form, u) THEN {-1} ELSE {form.enc[u].c + x : x \in UnitVals(form, u, 1)}
+\* two forms can never produce the same byte sequence: some unit distinguishes all their variants
+Distinct(f, g) ==
+  \E u \in 1..(IF Len(f.enc) < Len(g.enc) THEN Len(f.enc) ELSE Len(g.enc)) :
+     /\ -1 \notin KeyAt(f, u) /\ -1 \notin KeyAt(g, u)
+     /\ KeyAt(f, u) \cap KeyAt(g, u) = {}
+\* (LD r,r' never meets HALT because (HL) = 110 is not a register code: the variants are enumerated exactly)
+KeysDistinct(forms) == \A f, g \in {h \in forms : ~h.alias} : f # g => Distinct(f, g)
+\* cheap mask test first, exact variant enumeration only where the masks cannot tell the forms apart
+FormsDistinct(forms, unitBits) ==
+  \A f, g \in {h \in forms : ~h.alias} : f # g => (MaskDistinct(f, g, unitBits) \/ Distinct(f, g))
 =============================================================================
